@@ -290,8 +290,9 @@ class DiscrLeaf(Node):
             kw['weighting'] = c
             wq = '(LConst %s)' % C.q(c)
         else:
-            w = np.array([float(rng.choice([1, 2, 3, 4, 0.5, 0.25])) for _ in range(n_tot)]).reshape(shape)
-            w = w.astype('float32' if dtype == 'float32' else 'float64')
+            menu = [1, 2, 3, 4] if dtype.startswith('int') else [1, 2, 3, 4, 0.5, 0.25]
+            w = np.array([float(rng.choice(menu)) for _ in range(n_tot)]).reshape(shape)
+            w = w.astype(dtype if dtype in ('float32', 'int64', 'int32') else 'float64')
             kw['weighting'] = w
             wq = '(LArr %s)' % qlist(w)
         if all(s[0] == 'flags' for s in specs):
@@ -538,6 +539,19 @@ def sp_cases(rng, tier):
                 if node.fragile():
                     continue
                 _add_ops(cs, rng, node, qt, 1, kinds=['int', 'one'])
+    # documented default weighting = cell volume for EVERY numeric dtype (integer and float32 spaces too)
+    for dt, p, wk in itertools.product(['int64', 'int32', 'float32'], EXPOS, ['default', 'const', 'array']):
+        for _ in range(1 if not thorough else 3):
+            node = None
+            for _try in range(30):
+                cand = DiscrLeaf(rng, p, wkind=wk, dtype=dt)
+                # integer dtype + boundary fractions: the scaled copy is truncated back to integers
+                # (finding discr-int-dtype-bdry-scaling-truncates, probed separately)
+                if not cand.fragile() and not (dt.startswith('int') and not cand.space.is_uniformly_weighted):
+                    node = cand
+                    break
+            if node is not None:
+                _add_ops(cs, rng, node, qt, 1, kinds=['int', 'one'])
     nrand = 60 if not thorough else 500
     made = 0
     while made < nrand:
@@ -595,6 +609,25 @@ def complex_cases(rng, tier):
                         % (qt, lf, qlist(xr), qlist(xi), qlist(yr), qlist(yi), opq, out, C.q(im)))
                 cs.add(term, {'space': node.desc, 'op': op, 'impl': out},
                        (C.digest(node.desc), op, C.digest([qlist(xr), qlist(xi), qlist(yr), qlist(yi)])))
+    # size regimes of _inner_default / _norm_default for complex data (closed form known to both sides)
+    for n in ([99, 100, 101, 50001] if tier == 'quick' else [99, 100, 101, 4999, 50000, 50001, 60000]):
+        for wk, p in ([('none', 2), ('const', 2), ('array', 2), ('array', 3)] if tier == 'quick'
+                      else itertools.product(['none', 'const', 'array'], [2, 1, 3, INF])):
+            node = TensorLeaf(rng, p, wkind=wk, dtype='complex128', big=n)
+            gs = [GenVec(rng, n) for _ in range(4)]
+            xr, xi, yr, yi = [g.array() for g in gs]
+            x = node.space.element(xr + 1j * xi)
+            y = node.space.element(yr + 1j * yi)
+            lf = node.coq[len('(SLeaf '):-1]
+            # inner only (root-free, linear time in Coq): <x,y> and <x,x>; norms of large complex arrays are
+            # covered by complex_size_probes (a per-entry rational square root of 50001 moduli is too slow)
+            for op, yy, gy in (('inner', y, (gs[2], gs[3])), ('inner-self', x, (gs[0], gs[1]))):
+                out, v = impl_call(lambda: x.inner(yy))
+                im = v.imag if isinstance(v, complex) else 0.0
+                term = ('{| c_q := %s; c_lf := %s; c_xr := %s; c_xi := %s; c_yr := %s; c_yi := %s; c_op := OInner; '
+                        'c_out := %s; c_out_im := %s |}'
+                        % (qt, lf, gs[0].coq(), gs[1].coq(), gy[0].coq(), gy[1].coq(), out, C.q(im)))
+                cs.add(term, {'space': node.desc, 'op': op, 'impl': out, 'size': n}, (C.digest(node.desc), op, n))
     return cs
 
 
@@ -1019,6 +1052,87 @@ def size_probes(out, rng, tier):
                                head + chk, (env.get('observed'), env.get('expected'))))
 
 
+def complex_size_probes(out, rng, tier):
+    """Complex tensor / discretized / product spaces across the size regimes: <x,y> = sum w x conj(y)
+    (re and im), conjugate symmetry, <x,x> real and positive, norm -- against NumPy on the whole array."""
+    shapes = [(99,), (101,), (50001,), (300, 200)]
+    for shape, wk in itertools.product(shapes, ['none', 'const', 'array', 'discr', 'pspace']):
+        a, b = rng.choice([3, 5, 7]), rng.randint(0, 5)
+        head = ("import numpy as np, odl\nshape = %r; n = int(np.prod(shape)); i = np.arange(n)\n"
+                "x = (((%d * i + %d) %% 11 - 5) + 1j * ((7 * i + 1) %% 13 - 6)).reshape(shape)\n"
+                "y = (((5 * i + 2) %% 7 - 3) + 1j * ((3 * i) %% 5 - 2)).reshape(shape)\n"
+                "w = ((3 * i) %% 5 + 1.0).reshape(shape); kind = %r\n"
+                "if kind == 'discr':\n"
+                "    sp = odl.uniform_discr([0.0] * len(shape), [2.0] * len(shape), shape, dtype=complex, nodes_on_bdry=True)\n"
+                "    fr = np.ones(()); \n"
+                "    for m in shape:\n        v = np.ones(m); v[0] = v[-1] = 0.5; fr = np.multiply.outer(fr, v)\n"
+                "    W = sp.cell_volume * fr.reshape(shape)\n"
+                "elif kind == 'pspace':\n    sp = odl.ProductSpace(odl.cn(shape), odl.cn(3), weighting=[2.0, 3.0]); W = 2.0 * np.ones(shape)\n"
+                "else:\n"
+                "    kw = {} if kind == 'none' else ({'weighting': 2.5} if kind == 'const' else {'weighting': w})\n"
+                "    sp = odl.cn(shape, **kw)\n"
+                "    W = np.ones(shape) if kind == 'none' else (np.full(shape, 2.5) if kind == 'const' else w)\n"
+                "extra = 0.0\n"
+                "if kind == 'pspace':\n    X = sp.element([x, [1j, 2, 0]]); Y = sp.element([y, [1, 1j, 3]]); extra = 3.0 * (1j * 1 + 2 * np.conj(1j))\n"
+                "    extra_xx = 3.0 * 5.0\n"
+                "else:\n    X = sp.element(x); Y = sp.element(y); extra_xx = 0.0\n"
+                "cl = lambda u, v: abs(u - v) <= 1e-9 * max(1.0, abs(v))\n"
+                % (shape, a, b, wk))
+        checks = {
+            'inner': "observed = complex(X.inner(Y)); expected = complex(np.sum(W * x * np.conj(y)) + extra); ok = cl(observed, expected)\n",
+            'conj-sym': "observed = complex(Y.inner(X)); expected = complex(np.conj(X.inner(Y))); ok = cl(observed, expected)\n",
+            'pos': "observed = complex(X.inner(X)); expected = float(np.sum(W * np.abs(x) ** 2) + extra_xx)\n"
+                   "ok = abs(observed.imag) <= 1e-9 * expected and cl(observed.real, expected)\n",
+            'norm': "observed = X.norm(); expected = float(np.sqrt(np.sum(W * np.abs(x) ** 2) + extra_xx)); ok = cl(observed, expected)\n"}
+        for prop, chk in checks.items():
+            env = {}
+            try:
+                exec(head + chk, env)
+                ok = bool(env.get('ok'))
+            except Exception as e:
+                ok = False
+                env['observed'] = repr(e)
+            out.append(C.Probe(ok, 'complex-%s-size%d-%s' % (wk, int(np.prod(shape)), prop),
+                               '%s on a complex %s space with %r entries vs NumPy' % (prop, wk, shape), head + chk,
+                               (env.get('observed'), env.get('expected'))))
+
+
+def dtype_discr_probes(out, rng, tier):
+    """Discretized spaces of every numeric dtype: the default weighting is the cell volume, so
+    ||one||_p ** p = domain volume (p = 1, 2, 3), and inner/norm carry the cell volume."""
+    for dt, p, nd in itertools.product(['int64', 'int32', 'float32', 'float64', 'complex128', 'complex64'],
+                                       [1, 2, 3], [1, 2]):
+        shape = tuple(rng.choice([2, 4, 5, 10]) for _ in range(nd))
+        maxs = [float(rng.choice([1, 2, 3])) for _ in range(nd)]
+        head = ("import numpy as np, odl\nsp = odl.uniform_discr(%r, %r, %r, dtype=%r, exponent=%r)\n"
+                "vol = float(np.prod(sp.partition.extent)); cv = vol / sp.size\n"
+                "tol = 1e-4 if sp.dtype in (np.dtype('float32'), np.dtype('complex64')) else 1e-9\n"
+                % ([0.0] * nd, maxs, shape, dt, float(p)))
+        checks = {'one-norm': "observed = sp.one().norm() ** %r; expected = vol; ok = abs(observed - expected) <= tol * expected\n" % float(p),
+                  'weighting': "observed = getattr(sp.weighting, 'const', None); expected = cv\n"
+                               "ok = observed is not None and abs(observed - expected) <= 1e-12 * expected\n"}
+        if p == 2:
+            checks['inner'] = ("x = sp.element(np.arange(sp.size).reshape(sp.shape) % 3)\n"
+                               "observed = complex(x.inner(sp.one())).real; expected = cv * float(np.sum(np.arange(sp.size) % 3))\n"
+                               "ok = abs(observed - expected) <= tol * max(1.0, expected)\n")
+        for prop, chk in checks.items():
+            env = {}
+            try:
+                exec(head + chk, env)
+                ok = bool(env.get('ok'))
+            except Exception as e:
+                ok = False
+                env['observed'] = repr(e)
+            kk = None
+            try:
+                kk = known_key(env['sp']) if not ok else None
+            except Exception:
+                pass
+            out.append(C.Probe(ok, kk or 'discr-default-%s-%s' % (dt, prop),
+                               '%s of uniform_discr(dtype=%s, exponent=%r): default weighting is the cell volume'
+                               % (prop, dt, p), head + chk, (env.get('observed'), env.get('expected'))))
+
+
 def search(rng, broken):
     """A correspondence case failed but no probe produced an input: re-evaluate the independent oracle on
     that very case (same space, data, memory layouts and exponent), then on every other layout."""
@@ -1144,6 +1258,8 @@ def probes(rng, tier):
     # memory layouts (C / F / wrapped Fortran / transposed / strided) x array weights x exponents
     layout_probes(out, rng, tier)
     size_probes(out, rng, tier)
+    complex_size_probes(out, rng, tier)
+    dtype_discr_probes(out, rng, tier)
     # the switches derived from the source text agree with the behaviour measured on the findings' inputs
     gen = translate()['Gen/Weighting.v']
     q = quirks()
@@ -1206,6 +1322,11 @@ def probes(rng, tier):
           "odl.ProductSpace(odl.rn(2), 2), weighting=[1, 2])\nx = ps.one()\ntry:\n    observed = (x.inner(x), x.norm())\n"
           "    ok = abs(observed[0] - 13.0) < 1e-6 and abs(observed[1] ** 2 - 13.0) < 1e-5\n"
           "except AttributeError as e:\n    observed = repr(e); ok = False\n")
+    known('discr-int-dtype-bdry-scaling-truncates',
+          'integer-dtype discretized space with nodes on the boundary: inner(x, one) = weighted sum with fractions',
+          "import odl\nd = odl.uniform_discr(0, 2, 3, nodes_on_bdry=True, dtype='int64', weighting=2.0)\n"
+          "x = d.element([3, 1, 3])\nobserved = (x.inner(d.one()), x.norm() ** 2)\nexpected = (8.0, 20.0)\n"
+          "ok = abs(observed[0] - 8.0) < 1e-9 and abs(observed[1] - 20.0) < 1e-9\n")
     known('discr-bdry-fraction-isclose-snap',
           'boundary fraction 1.000002 (inside the np.isclose band): ||one||^2 == volume',
           "import odl, numpy as np\npart = odl.RectPartition(odl.IntervalProd(0, 4 + 0.5 + 0.5 * 1.000004), "
